@@ -11,7 +11,9 @@ REQUIRES = ["Model.Router", "Spec.C18"]
 PROOF_FILES = ["Proof/C18.v"]
 MANIFEST = {
     "text": "Coq theorems over all histories of add_rule (accepted or rejected)/startTestRun/stopTestRun/status calls "
-            "on a router (any rule set, any order, any event, any chain of StreamToQueue prefixes): a rejected add_rule "
+            "on a router (any rule set - keys re-mapped, sinks shared between rules and with the fallback -, any order, "
+            "any event, any chain of StreamToQueue prefixes): the latest rule for a key is the one in force, a "
+            "registration for start/stop is never taken back and no add_rule stops a sink; a rejected add_rule "
             "raises, reaches no sink and leaves every other observation unchanged; every call is judged against the calls "
             "made before it (invariant tying the router's dictionaries, _sinks and _in_run to the history), the "
             "consuming slice is the inverse of StreamToQueue.route_code (also at the level of '/'-joined strings), "
@@ -29,7 +31,11 @@ MANIFEST = {
 RULE = ("a router with/without fallback (do_start_stop_run on/off) over 6 recording sinks; rules over 2 route prefixes "
         "x consume on/off and test ids 2 + None x do_start_stop_run on/off inserted at every position of "
         "start,stop,start,stop (exhaustive for <= 2 rules, sampled in the quick tier), random histories with up to 5 "
-        "rules incl. unbalanced start/stop, duplicate keys and shared sinks; REJECTED add_rule calls (table REJECTS: "
+        "rules; RE-MAPPED keys (a second add_rule for the same route prefix / test id: every ordered pair of rule "
+        "options for a key x positions g1 <= g2, new sink fresh / the old one / the fallback object / another rule's, "
+        "the old sink also serving another rule) and SHARED sinks (one sink for 2-4 rules with different keys, the "
+        "fallback object as a rule's sink, registered for start/stop zero, one or several times), also in half of "
+        "the random histories; REJECTED add_rule calls (table REJECTS: "
         "unknown/None/unhashable policy -> ValueError/TypeError, route_prefix with '/', None or non-string, missing "
         "or foreign keyword, unhashable test id) x do_start_stop_run on/off at every position of start,stop,start,stop, "
         "alone, with a fresh sink next to accepted rules, retried with the same sink by an accepted rule (same or "
@@ -44,7 +50,12 @@ ASSUMPTIONS = ["route segments, test ids, tags, file names, mime types and times
                "which add_rule calls are rejected is a table of the harness (REJECTS: the argument shapes the docstring "
                "of add_rule names - ValueError for an unknown policy, TypeError for arguments the policy cannot handle); "
                "the model carries what a rejected call does (raises, router unchanged, nothing delivered), not the "
-               "argument binding of Python; the kind of exception is not compared, only that the call raised"]
+               "argument binding of Python; the kind of exception is not compared, only that the call raised",
+               "'once per run' is read per registration: a sink that was asked for start/stop n times (as the fallback "
+               "with do_start_stop_run and/or by n add_rule(.., do_start_stop_run=True) calls naming the same object) "
+               "receives n startTestRun/stopTestRun per run, as the code does (one _sinks entry per registration); a "
+               "registration is never taken back, also when the sink's rule is re-mapped",
+               "a second add_rule for a key replaces the rule (dict assignment): 'the rule for' a key is the latest one"]
 EXPLANATION = ("Theorems in coq/Props/C18.v over all call histories; correspondence: every call of a generated history "
                "is made on a real StreamResultRouter (status calls directly or through real StreamToQueue objects "
                "whose queues are drained at once), the calls newly received by every sink after each call and "
@@ -359,14 +370,19 @@ def rej(why, ss, share="fresh"):
 
 
 def skeleton_case(rng, placed, fbmode, nprobe=2, final=True):
-    """placed: list of (rule, gap) with gap in 0..4 around S T S T; fbmode: 0 none, 1 fallback without, 2 with
-    start/stop"""
+    """placed: list of (rule, gap) or (rule, gap, sink) with gap in 0..4 around S T S T (sink: the sink number to
+    use - 0 is the fallback object when there is one - instead of the next fresh one); fbmode: 0 none,
+    1 fallback without, 2 with start/stop"""
     ops = []
     marks = ["S", "T", "S", "T"]
     sink = 1
     for gap in range(5):
-        for rule, g in placed:
+        for entry in placed:
+            rule, g = entry[0], entry[1]
             if g == gap:
+                if len(entry) > 2:
+                    ops.append(mk_rule(rule, entry[2]))
+                    continue
                 if rule[0] == "R" and rule[3] == "prev":
                     ops.append(mk_rule(rule, max(sink - 1, 1)))
                     continue
@@ -382,10 +398,9 @@ def skeleton_case(rng, placed, fbmode, nprobe=2, final=True):
 
 
 def random_case(rng):
-    """a random history inside the property's quantifier: distinct sinks, one rule per key, startTestRun and
-    stopTestRun alternating (the behaviour on duplicate keys is documented as undefined, and a second
-    startTestRun without a stopTestRun is outside the StreamResult protocol: neither is generated, although the
-    model covers both)"""
+    """a random history inside the property's quantifier: startTestRun and stopTestRun alternating (a second
+    startTestRun without a stopTestRun is outside the StreamResult protocol: not generated, although the model
+    covers it); half of them with distinct sinks and one rule per key, half with re-mapped keys and shared sinks"""
     n_ops = rng.randint(4, 22)
     ops = []
     free = [1, 2, 3, 4, 5]
@@ -394,6 +409,9 @@ def random_case(rng):
     used_keys = set()
     opts = rule_options()
     seen = []
+    # half of the histories: keys are re-mapped (a later add_rule for the same route prefix / test id) and sinks
+    # are shared (one sink for several rules, the fallback object as a rule's sink)
+    loose = rng.random() < 0.5
     for _ in range(n_ops):
         x = rng.random()
         if x < 0.10:
@@ -407,10 +425,17 @@ def random_case(rng):
         if x < 0.30 and free:
             rule = rng.choice(opts)
             key = (rule[0], rule[1])
-            if key in used_keys:
+            if loose and used_keys and rng.random() < 0.4:       # re-map a key that has a rule
+                kind, k = rng.choice(sorted(used_keys, key=repr))
+                rule = rng.choice([o for o in opts if (o[0], o[1]) == (kind, k)])
+                key = (kind, k)
+            if key in used_keys and not loose:
                 continue
             used_keys.add(key)
-            s = free.pop()
+            if loose and seen and rng.random() < 0.4:
+                s = rng.choice(seen + [0])                       # a sink that is in use already / the fallback
+            else:
+                s = free.pop()
             seen.append(s)
             ops.append(mk_rule(rule, s))
         elif x < 0.46:
@@ -460,6 +485,20 @@ def fixed_cases():
                                                      ["E", [], ev(None, 0)], ["E", [], ev(None, 1)], ["T"]]},
         {"n": 3, "fb": 0, "fb_ss": False, "ops": [["R", 1, 10, True], ["R", 2, 20, True], ["E", [], ev(None, None)],
                                                   ["E", [], ev([0], 0)], ["S"], ["T"]]},
+        # re-mapping: the replaced sink (registered for start/stop, also the target of a test-id rule) is not
+        # stopped, keeps its other rule and its registration; prefix events go to the new sink only
+        {"n": 3, "fb": None, "fb_ss": False, "ops": [["P", 1, 0, False, True], ["I", 1, 1, False], ["S"],
+                                                     ["E", [], ev([0, 3], 1)], ["P", 2, 0, True, True],
+                                                     ["E", [], ev([0, 3], 1)], ["E", [], ev(None, 1)], ["T"], ["S"],
+                                                     ["E", [], ev([0], 0)], ["T"]]},
+        # re-mapping a test id (None) before a run; the replaced sink is referenced by no rule any more and still
+        # gets start/stop; re-mapping to the same sink; a rule whose sink is the fallback
+        {"n": 4, "fb": 0, "fb_ss": True, "ops": [["I", 1, None, True], ["I", 2, None, True], ["I", 2, None, False],
+                                                 ["P", 0, 2, True, False], ["S"], ["E", [], ev(None, None)],
+                                                 ["E", [], ev([2, 1], 0)], ["T"]]},
+        # one sink registered twice for start/stop (two rules with do_start_stop_run=True): the code keeps one
+        # _sinks entry per registration
+        {"n": 3, "fb": 0, "fb_ss": False, "ops": [["P", 1, 0, True, True], ["S"], ["I", 1, 0, True], ["T"], ["S"], ["T"]]},
         # empty history
         {"n": 1, "fb": 0, "fb_ss": True, "ops": []},
     ]
@@ -503,6 +542,50 @@ def generate(rng, tier):
             placed.insert(rng.randint(0, len(placed)), (r, rng.randrange(5)))
         placed.sort(key=lambda rg: rg[1])        # stable: keeps 'next'/'prev' neighbours of one gap together
         cases.append(skeleton_case(rng, placed, rng.randrange(3), nprobe=1, final=rng.random() < 0.5))
+    # re-mapping a key: every ordered pair of rule options for the same key (old sink 1, new sink 2) at every pair of
+    # positions g1 <= g2; variants: the old sink also serves another rule (different key, added at a random
+    # position), the new sink is the old one / the fallback object / the sink of another rule
+    remaps = []
+    for r1 in opts:
+        for r2 in opts:
+            if (r1[0], r1[1]) != (r2[0], r2[1]):
+                continue
+            for g1 in range(5):
+                for g2 in range(g1, 5):
+                    remaps.append((r1, g1, r2, g2))
+    if tier == "quick":
+        remaps = rng.sample(remaps, 330)
+    for r1, g1, r2, g2 in remaps:
+        fbmodes = [rng.randrange(3)] if tier == "quick" else range(3)
+        for fbmode in fbmodes:
+            cases.append(skeleton_case(rng, [(r1, g1, 1), (r2, g2, 2)], fbmode, nprobe=1, final=rng.random() < 0.5))
+            other = rng.choice([o for o in opts if (o[0], o[1]) != (r1[0], r1[1])])
+            og = rng.randrange(5)
+            third = [(other, og, 1)]
+            placed = [(r1, g1, 1), (r2, g2, 2)]
+            placed.insert(rng.randint(0, 2), third[0])
+            cases.append(skeleton_case(rng, placed, fbmode, nprobe=1, final=rng.random() < 0.5))
+            new_sink = rng.choice([1, 0, 3])
+            placed = [(r1, g1, 1), (r2, g2, new_sink)]
+            if new_sink == 3:
+                placed.insert(0, (other, rng.randint(0, g2), 3))
+            cases.append(skeleton_case(rng, placed, fbmode, nprobe=1, final=rng.random() < 0.5))
+    # one sink for two or three rules with different keys (two prefixes, a prefix and a test id, a rule and the
+    # fallback object), any registration pattern
+    n_shared = 300 if tier == "quick" else 4000
+    for _ in range(n_shared):
+        k = rng.randint(2, 4)
+        keys = rng.sample([("P", 0), ("P", 2), ("I", 0), ("I", 1), ("I", None)], k)
+        sinks = [rng.choice([0, 1, 1, 2]) for _ in keys]
+        placed = []
+        for (kind, key), sk in zip(keys, sinks):
+            rule = (kind, key, rng.random() < 0.5, rng.random() < 0.5) if kind == "P" else (kind, key, rng.random() < 0.5)
+            placed.append((rule, rng.randrange(5), sk))
+        if rng.random() < 0.5:                                   # and one of the keys re-mapped to yet another sink
+            kind, key = rng.choice(keys)
+            rule = (kind, key, rng.random() < 0.5, rng.random() < 0.5) if kind == "P" else (kind, key, rng.random() < 0.5)
+            placed.append((rule, rng.randrange(5), rng.choice([0, 1, 2, 3])))
+        cases.append(skeleton_case(rng, placed, rng.randrange(3), nprobe=1))
     # two rules: exhaustive over (rule, gap) pairs with distinct keys; sampled in the quick tier
     pairs = []
     for (r1, g1), (r2, g2) in itertools.combinations([(r, g) for r in opts for g in range(5)], 2):
